@@ -636,7 +636,7 @@ func c15R7(p *core.Prog, r *core.Report) {
 					return
 				}
 				n++
-				key := siteKey(p, x.Ins)
+				key := name + ": error line " + strconv.Quote(text)
 				refused := false
 				for h := range x.St.Hist {
 					if strings.HasPrefix(h, res+".") && strings.HasSuffix(h, ".Result != 0") {
